@@ -11,6 +11,10 @@ Model (JSON):
             "head": "main" | "branch" | "detached",              # what is checked out when Griffe runs
             "dirty": {"modified": bool, "staged": bool, "untracked": bool, "stash": bool},
             "user_worktree": bool,                 # the user already has a linked worktree of their own
+            "clone": None | "path" | "file",       # Griffe works on a `git clone` (by path / file:// URL) of the generated repository:
+                                                   # all branches but main then exist only as origin/<name>; refs of kind branch /
+                                                   # slashed name such a remote-only branch (not a valid commit-ish: the load must fail
+                                                   # and leave the clone untouched), kind "remote" names origin/<name> (valid)
             "sibling": None | "private" | "public",  # a second top-level package in the same repository that the first one re-exports
                                                    # `sfunc` from: "_<pkg>" (loaded on demand with resolve_external=None/True) or
                                                    # "<pkg>sib" (loaded on demand with resolve_external=True only)
@@ -22,6 +26,8 @@ Model (JSON):
           "against_none": bool,                    # check only: let Griffe pick the latest tag
           "force": bool, "resolve_aliases": bool, "external": None | True | False,   # load_git: resolve_external
           "preexisting": bool,
+          "user_wt": None | "ref" | "griffe-ref",   # before the operation the user adds a linked worktree of their own whose directory
+                                                    # basename is normalize(ref) / "griffe-" + normalize(ref)
           "fault": None | {"type": "ext_exc" | "ext_kbi", "k": int} | {"type": "sub_nonzero" | "sub_oserror", "i": int}}
 
 All indices are taken modulo what exists, so every drawn model is valid and shrinks freely.
@@ -124,7 +130,9 @@ def render_commit(name: str, commit: dict, j: int, sibling=None) -> dict[str, st
 def build_repo(case, base: Path) -> dict:
     """Create the repository under `base`; -> {"repo": Path, "name": pkg name, "shas": [...], "tags": {...}, "branches": {...}}."""
     name = pkg_name(case)
-    repo = base / REPO_NAMES[case["repo_name"] % len(REPO_NAMES)]
+    final_repo = base / REPO_NAMES[case["repo_name"] % len(REPO_NAMES)]
+    clone = case.get("clone")
+    repo = (base / "origin-src" / final_repo.name) if clone else final_repo
     repo.mkdir(parents=True)
     src = repo if case["srcdir"] == "." else repo / case["srcdir"]
     git(repo, "init", "-q", "-b", "main")
@@ -157,15 +165,25 @@ def build_repo(case, base: Path) -> dict:
         if b not in branches:
             branches[b] = ci % len(shas)
             git(repo, "branch", b, shas[branches[b]])
+    local_branches = {"main", *branches}
+    if clone:
+        # the user's repository is a clone: only `main` is a local branch, the others exist as origin/<name>
+        url = str(repo) if clone == "path" else "file://" + str(repo)
+        git(base, "clone", "-q", url, str(final_repo))
+        repo = final_repo
+        src = repo if case["srcdir"] == "." else repo / case["srcdir"]
+        local_branches = {"main"}
     head_commit = len(shas) - 1
     if case["head"] == "branch" and branches:
         b = sorted(branches)[0]
-        git(repo, "checkout", "-q", b)
+        git(repo, "checkout", "-q", b)  # (in a clone: creates the local tracking branch, as a user's checkout would)
+        local_branches.add(b)
         head_commit = branches[b]
     elif case["head"] == "detached":
         head_commit = max(0, len(shas) - 2)
         git(repo, "checkout", "-q", "--detach", shas[head_commit])
-    info = {"repo": repo, "name": name, "sibling": sibling_name(name, case.get("sibling")), "shas": shas, "tags": tags, "branches": branches, "head_commit": head_commit, "src": src}
+    info = {"repo": repo, "name": name, "sibling": sibling_name(name, case.get("sibling")), "shas": shas, "tags": tags, "branches": branches, "head_commit": head_commit, "src": src,
+            "local_branches": local_branches, "clone": clone, "user_worktrees": [], "base": base}
     # ---- the user's own uncommitted work, which must survive
     d = case["dirty"]
     if d.get("stash"):
@@ -188,7 +206,7 @@ def build_repo(case, base: Path) -> dict:
     if case.get("user_worktree"):
         uw = base / "user-worktree"
         git(repo, "worktree", "add", "-q", "-b", "user/wt", str(uw), shas[0])
-        info["user_worktree"] = uw
+        info["user_worktrees"].append(uw)
     return info
 
 
@@ -199,14 +217,18 @@ def resolve_ref(refspec, info) -> tuple[str, int | None]:
     if kind == "tag" and info["tags"]:
         t = sorted(info["tags"])[idx % len(info["tags"])]
         return t, info["tags"][t]
+    local = info.get("local_branches") or set(info["branches"])
     if kind == "branch" and info["branches"]:
         b = sorted(info["branches"])[idx % len(info["branches"])]
-        return b, info["branches"][b]
+        return b, (info["branches"][b] if b in local else None)  # remote-only in a clone: not a commit-ish
     if kind == "slashed":
         sl = [b for b in sorted(info["branches"]) if "/" in b]
         if sl:
             b = sl[idx % len(sl)]
-            return b, info["branches"][b]
+            return b, (info["branches"][b] if b in local else None)
+    if kind == "remote" and info.get("clone") and info["branches"]:
+        b = sorted(info["branches"])[idx % len(info["branches"])]
+        return f"origin/{b}", info["branches"][b]
     if kind == "sha":
         i = idx % len(shas)
         return shas[i], i
@@ -227,7 +249,7 @@ def strategy():
     from hypothesis import strategies as st
 
     commit = st.fixed_dictionaries({"state": st.sampled_from(["ok"] * 7 + ["syntax_top", "syntax_sub", "absent"]), "variant": st.integers(0, 3)})
-    refspec = st.tuples(st.sampled_from(["tag", "tag", "branch", "slashed", "slashed", "sha", "short", "HEAD", "HEAD~1", "main", "unknown"]), st.integers(0, 3)).map(list)
+    refspec = st.tuples(st.sampled_from(["tag", "tag", "branch", "branch", "slashed", "slashed", "remote", "sha", "short", "HEAD", "HEAD~1", "main", "unknown"]), st.integers(0, 3)).map(list)
     ext_fault = st.fixed_dictionaries({"type": st.sampled_from(["ext_exc", "ext_kbi"]), "k": st.integers(0, 400)})
     sub_fault = st.fixed_dictionaries({"type": st.sampled_from(["sub_nonzero", "sub_oserror"]), "i": st.integers(0, 4)})
     fault = st.one_of(st.none(), st.none(), ext_fault, ext_fault, sub_fault)
@@ -241,6 +263,7 @@ def strategy():
             "resolve_aliases": st.sampled_from([True, True, False]),
             "external": st.sampled_from([None, None, True, False]),
             "preexisting": st.sampled_from([False] * 7 + [True]),
+            "user_wt": st.sampled_from([None] * 5 + ["ref", "ref", "griffe-ref"]),
             "fault": fault,
         }
     )
@@ -256,6 +279,7 @@ def strategy():
             "dirty": st.fixed_dictionaries({"modified": st.booleans(), "staged": st.booleans(), "untracked": st.booleans(), "stash": st.sampled_from([False, False, True])}),
             "user_worktree": st.sampled_from([False, False, False, True]),
             "sibling": st.sampled_from([None, "private", "private", "public"]),
+            "clone": st.sampled_from([None, None, None, "path", "file"]),
             "ops": st.lists(op, min_size=1, max_size=3),
         }
     )
